@@ -46,7 +46,7 @@ SPEC = {
         {"name": "pk_strmatch", "run": "^TestPKStrMatch$", "quick": B(8000, 1), "thorough": B(200000, 1, 3000)},
         {"name": "sk_minmax", "run": "^TestSKMinMax$", "quick": B(12000, 1), "thorough": B(300000, 1, 3000)},
         {"name": "sk_bloom", "run": "^TestSKBloom$", "quick": B(2400, 2), "thorough": B(60000, 2, 3000)},
-        {"name": "bb_colstore", "run": "^TestBBColumnStore$", "quick": B(25, 4, 600, shrinktime="20s"), "thorough": B(2000, 8, 3000, shrinktime="60s")},
+        {"name": "bb_colstore", "run": "^TestBBColumnStore$", "quick": B(25, 4, 600, shrinktime="20s"), "thorough": B(600, 8, 3000, shrinktime="60s")},
     ],
 }
 
